@@ -344,8 +344,8 @@ func gen(tier string, emit func(engine.Case) bool) {
 		return []string{""}
 	}
 
-	// Family A - iteration: every collection x iterator x content form x spec kind x label form, layouts P, SP, PS
-	layA := []string{"P", "SP", "PS"}
+	// Family A - iteration: every collection x iterator x content form x spec kind x label form, layouts of length <= 2
+	layA := layouts(2, "SYD")
 	if thorough {
 		layA = layouts(2, "SYDE")
 	}
@@ -841,7 +841,7 @@ func main() {
 		Title:     "Dynamic blocks expand to exactly the blocks they describe",
 		Technique: "bounded exhaustive enumeration of abstract bodies with dynamic blocks x hcldec specs x syntaxes; real dynblock.Expand + hcldec.Decode against the decoding of a reference write-out (one static block per element, iterator renamed to a fresh variable)",
 		Rule: "three product families over blocks x (dynamic, principal), static x / static y / second dynamic x / dynamic y, nested z; specs object{top, x: K{a [,z: Kz{b}]}, y: list} with K in BlockList/Set/Tuple/Block/Attrs/Map/Object/List+BlockLabelSpec: " +
-			"(iter) for_each in 16 (quick) / 25 (thorough) collections (list, tuple, set, map, object of size 0-2, collections of objects, marked, marked element, unknown list/map/set, DynamicVal, null, non-iterable) x iterator {default, custom, custom shadowing global g, custom shadowing the for_each variable} x 7 content forms (const, it.key, it.value, it.value.attr, template of it.key and a global, global, the shadowed name) x K x 4 label forms (labelled K) x layouts {P,SP,PS} (thorough: all of length <= 2) x {native, JSON}; " +
+			"(iter) for_each in 16 (quick) / 25 (thorough) collections (list, tuple, set, map, object of size 0-2, collections of objects, marked, marked element, unknown list/map/set, DynamicVal, null, non-iterable) x iterator {default, custom, custom shadowing global g, custom shadowing the for_each variable} x 7 content forms (const, it.key, it.value, it.value.attr, template of it.key and a global, global, the shadowed name) x K x 4 label forms (labelled K) x every layout of length <= 2 with one principal block over {S,Y,D} (thorough +E) x {native, JSON}; " +
 			"(interleave) every layout of length <= 3 with one principal block over {S,Y,D} (thorough +E) x 5 (10) collections x {default, shadowing} x 2 content forms x K x label forms; " +
 			"(nest) 6 nestings (static z using the outer iterator, dynamic z over a global using both iterators, dynamic z over it.value.kids, dynamic z re-using the outer iterator name, static/dynamic/static z, dynamic z over an unknown) x Kz x 3 layouts x 7 collections x 4 iterators x 2 content forms x 6 K x {top level, inside a static block w} x syntaxes. " +
 			"distinct = distinct (shape, decoded value)",
